@@ -322,9 +322,9 @@ Theorem C10_reshape_array_identity : forall sh' st' t0 t es,
   eval_node (OReshape (TArray sh' st')) [t0] t [VArr es] = Ok (VArr es).
 Proof. reflexivity. Qed.
 
-(* Stated, not yet proved (covered by the correspondence only): Dot of an N-d by an M-d array
-   (M >= 2), `dot(A, B)[ia.., ic.., j] = sum_l A[ia.., l] * B[ic.., l, j]`. *)
-Definition C10_dot_general_full : Prop := forall st st1 st2 a0 c k m e0 e1,
+(* Dot of an N-d by an M-d array (N >= 1, M >= 2; includes 2-d x 2-d):
+   `dot(A, B)[ia.., ic.., j] = sum_l A[ia.., l] * B[ic.., l, j]` modulo 2^w. *)
+Theorem C10_dot_general_spec : forall st st1 st2 a0 c k m e0 e1,
   valid_shape a0 -> valid_shape c -> 0 < k -> 0 < m ->
   let s0 := a0 ++ [k] in let s1 := c ++ [k; m] in let rs := a0 ++ c ++ [m] in
   length e0 = Z.to_nat (prod_list s0) -> length e1 = Z.to_nat (prod_list s1) ->
@@ -333,6 +333,15 @@ Definition C10_dot_general_full : Prop := forall st st1 st2 a0 c k m e0 e1,
     forall ia ic j, in_shape ia a0 -> in_shape ic c -> 0 <= j < m ->
       get r rs (ia ++ ic ++ [j]) =
       dot_sum k (fun l => get e0 s0 (ia ++ [l])) (fun l => get e1 s1 (ic ++ [l; j])) mod modulus st.
+Proof. exact dot_general_spec. Qed.
+(* Stated, not proved (covered by the correspondence only). *)
+Definition C10_dot_nd_by_1d_full : Prop := forall st st1 st2 a0 k e0 e1,
+  valid_shape a0 -> a0 <> [] -> 0 < k ->
+  length e0 = Z.to_nat (prod_list (a0 ++ [k])) -> length e1 = Z.to_nat k ->
+  exists r, eval_node ODot [TArray (a0 ++ [k]) st; TArray [k] st1] (TArray a0 st2) [VArr e0; VArr e1] = Ok (VArr r) /\
+    length r = Z.to_nat (prod_list a0) /\
+    forall ia, in_shape ia a0 ->
+      get r a0 ia = dot_sum k (fun l => get e0 (a0 ++ [k]) (ia ++ [l])) (fun l => get e1 [k] [l]) mod modulus st.
 Example C10_example_dot_general :
   eval_node ODot [TArray [2; 2] U128; TArray [1; 2; 2] U128] (TArray [2; 1; 2] U128)
             [VArr [2 ^ 127; 2 ^ 100; 3; 2 ^ 64]; VArr [2; 1; 2 ^ 27; 5]]
@@ -360,6 +369,7 @@ Print Assumptions C10_matmul_spec.
 Print Assumptions C10_matmul_rank2_spec.
 Print Assumptions C10_matmul_inner_spec.
 Print Assumptions C10_dot_inner_spec.
+Print Assumptions C10_dot_general_spec.
 Print Assumptions C10_dot_scalar_is_multiply.
 Print Assumptions C10_tuple_get_create.
 Print Assumptions C10_vector_create_repeat.
